@@ -330,6 +330,27 @@ Theorem C01_streams_survive_foreign_close_race : forall mark wc hw ops x e,
 Proof. exact xrun_streams_init. Qed.
 Print Assumptions C01_streams_survive_foreign_close_race.
 
+(* and the headline theorem itself holds over the x-machine, for EVERY history: [xtrace] lists the
+   Base steps of the history (the X micro-steps run no sendInLoop) *)
+Theorem C01_outbound_stream_xtrace : forall mark wc hw ops x e,
+  xrun (xinit mark wc hw) ops = Ok (x, e) ->
+  wire (xbase x) ++ outb (xbase x) = flat_map step_block (xtrace (xinit mark wc hw) ops).
+Proof. exact xoutbound_trace. Qed.
+Print Assumptions C01_outbound_stream_xtrace.
+
+Theorem C01_xtrace_def : forall x ops,
+  xtrace x ops =
+  match ops with
+  | [] => []
+  | o :: r =>
+      match xstep x o with
+      | Ok (x1, _) => (match o with Base b => [(xbase x, b, xbase x1)] | _ => [] end) ++ xtrace x1 r
+      | _ => []
+      end
+  end.
+Proof. exact xtrace_unfold. Qed.
+Print Assumptions C01_xtrace_def.
+
 (* ========================================================================================== *)
 (* Source: the model functions ARE the current TcpConnection.cc, guard by guard                 *)
 (* ========================================================================================== *)
